@@ -539,6 +539,15 @@ func (sc *SpecScope) call(x *ast.CallExpr) Val {
 			return vBool(sx(">=", v.S, base))
 		}
 		return sc.fail("fresh of non-reference")
+	case "refof", "offof":
+		v := sc.eval(arg(0))
+		if v.K != KSlice {
+			return sc.fail("refof/offof of non-slice")
+		}
+		if name == "refof" {
+			return vInt(v.ref())
+		}
+		return vInt(v.off())
 	case "isold":
 		// allocated before the state in which the clause is evaluated (requires: before the call)
 		v := sc.eval(arg(0))
